@@ -2754,6 +2754,7 @@ static EntryTableBArray bufr_csv_read_tableb
    char          **csv_header, **csvcells;
    int           nbcell, csv_line_size;
    int           pos_FXY, pos_ElementName, pos_BUFR_Unit, pos_BUFR_Scale, pos_BUFR_ReferenceValue, pos_BUFR_DataWidth_Bits;
+   int           created=0;
 
    if (filename == NULL) return NULL;
 
@@ -2772,7 +2773,10 @@ static EntryTableBArray bufr_csv_read_tableb
       }
 
    if (addr_tableb == NULL)
+      {
       addr_tableb = (EntryTableBArray)arr_create( 100, sizeof(EntryTableB *), 100 );
+      created = 1;
+      }
 
 /* ClassNo,ClassName_en,FXY,ElementName_en,Note_en,BUFR_Unit,BUFR_Scale,BUFR_ReferenceValue,BUFR_DataWidth_Bits,CREX_Unit,CREX_Scale,CREX_DataWidth_Char,Status */
 
@@ -2802,6 +2806,7 @@ static EntryTableBArray bufr_csv_read_tableb
             snprintf( errmsg, sizeof(errmsg), _("Error reading Table B file %s\n"), filename );
             bufr_print_debug( errmsg );
 	    free( csvcells );
+            if (created) arr_free( &addr_tableb );
             return NULL;
 	    }
 	 continue; /* the header cells are not used again: released with the next line's */
@@ -2938,6 +2943,7 @@ static EntryTableDArray bufr_csv_read_tabled (EntryTableDArray addr_tabled, cons
    char          **csv_header, **csvcells;
    int           nbcell, csv_line_size;
    int           pos_FXY1, pos_FXY2, pos_Title_en;
+   int           created=0;
 
    if (filename == NULL) return NULL;
 
@@ -2951,7 +2957,10 @@ static EntryTableDArray bufr_csv_read_tabled (EntryTableDArray addr_tabled, cons
       }
 
    if (addr_tabled == NULL)
+      {
       addr_tabled = (EntryTableDArray)arr_create( 100, sizeof(EntryTableD *), 100 );
+      created = 1;
+      }
 
    csvcells = NULL;
    csv_header = NULL;
@@ -2978,6 +2987,7 @@ static EntryTableDArray bufr_csv_read_tabled (EntryTableDArray addr_tabled, cons
             snprintf( errmsg, sizeof(errmsg), _("Error reading Table D file %s\n"), filename );
             bufr_print_debug( errmsg );
 	    free( csvcells );
+            if (created) arr_free( &addr_tabled );
             return NULL;
 	    }
 	 continue; /* the header cells are not used again: released with the next line's */
